@@ -239,7 +239,7 @@ def coherent(g, ir):
                     for sy in e.symbols:
                         if not isinstance(sy, g.Symbol):
                             errs.append("expression symbol is not a Symbol")
-    extra = set(ir._local_uuid_cache) - set(seen)
+    extra = set(getattr(ir, "_local_uuid_cache", ())) - set(seen)
     if extra:
         errs.append("uuid table holds %d entries for nodes that are not attached" % len(extra))
     for e in ir.cfg:
